@@ -76,11 +76,22 @@ def run_loop(cfg, chooser=None):
     elif cfg.get("x0_form") == "int_array":
         p["x0"] = np.array([int(v) for v in cfg["x0"]])
     p["params"].update(RATES[cfg["rates"]])
+    vt = cfg.get("value_types")
+    if vt:
+        # the same parameter VALUES given as other numeric types (what a configuration file reader or a numpy computation hands over)
+        from fractions import Fraction
+        conv = {"numpy.float64": np.float64, "numpy.float32_exact": lambda v: np.float32(v) if float(np.float32(v)) == float(v) else np.float64(v),
+                "zero_d_array": lambda v: np.array(v), "fraction_exact": lambda v: Fraction(v) if not isinstance(v, bool) else v}[vt]
+        p["params"] = {k: (np.bool_(v) if isinstance(v, bool) else conv(v)) for k, v in p["params"].items()}
     old = L.uros.Core
     sched.ControlledCore.chooser = chooser
     L.uros.Core = sched.ControlledCore
     try:
         with contextlib.redirect_stdout(io.StringIO()):
+            if cfg.get("errstate"):
+                # the caller's process has numpy's floating-point error handling set to raise
+                with np.errstate(all="raise"):
+                    return L.launch_sim(p), None
             return L.launch_sim(p), None
     except Exception as ex:  # any exception during the closed loop is a violation, reported by the caller
         return None, "%s: %s" % (type(ex).__name__, str(ex)[:300])
@@ -206,6 +217,11 @@ def lattice(tier):
     for rates_ in ("imu_nonmultiple", "imu_mixed", "fine_sim_mixed", "fine_sim"):
         for x0, init in (([0.3, -0.3, 0.3, 0.07, 0.02, -0.07], True), ([-0.3, 0.3, 0.3, -0.05, 0.05, 0.05], False)):
             out.append(dict(x0=x0, initialize=init, decl=0.2, incl=1.0, rates=rates_, tf=tf))
+    # parameter values of other numeric types, and numpy's error handling set to raise in the calling process
+    for vt in ("numpy.float64", "numpy.float32_exact", "zero_d_array", "fraction_exact"):
+        out.append(dict(x0=[0.3, -0.3, 0.3, 0.07, 0.02, -0.07], initialize=True, decl=0.25, incl=1.0, rates="slow", tf=tf, value_types=vt))
+    for init in (True, False):
+        out.append(dict(x0=[0.3, -0.3, 0.3, 0.07, 0.02, -0.07], initialize=init, decl=0.2, incl=1.0, rates="default", tf=tf, errstate=True))
     # the initial state left to the launcher's default, and given as integer-valued data
     for form, x0, init in (("default", [0.0] * 6, True), ("int_list", [0.0] * 6, False), ("int_array", [0.0] * 6, True)):
         out.append(dict(x0=x0, initialize=init, decl=0.2, incl=1.0, rates="default", tf=tf, x0_form=form))
